@@ -21,7 +21,7 @@
 From Coq Require Import List ZArith QArith Qround Qabs Bool Arith Lia.
 From LMBase Require Import Res ListX IEEE.
 From LMDist Require Import GenDist DistSkel DistModel DistInst DistProofs DistConv DistTail DistBuild DistThms
-  DistDyadic DistCheckProofs DistStretch DistIEEE DistTotal DistNaive DistWords DistRound DistGridModel DistGrid DistBest.
+  DistDyadic DistCheckProofs DistStretch DistIEEE DistTotal DistNaive DistWords DistRound DistGridModel DistGrid DistBest DistMonoIEEE.
 Import ListNotations.
 Local Open Scope Q_scope.
 
@@ -287,6 +287,29 @@ Theorem C11_roundtrip_binary64 : forall (d : dist F64.t) p s q,
   le_n F64Ops q p = true.
 Proof. exact roundtrip_F64. Qed.
 
+(* Monotonicity in binary64 itself: scale(s) = f64::round((s - w*offset) * scale) as i32 is
+   non-decreasing in s for ALL doubles s1 <= s2 (infinities included, overflow of the difference or
+   of the product included) because every step is monotone in IEEE arithmetic (Flocq: rounding to
+   nearest is monotone, an overflow yields the infinity of the right sign, f64::round and the
+   saturating cast are monotone), for a finite w*offset and a finite positive scale ... *)
+Theorem C11_scale_monotone_binary64 : forall (d : dist F64.t) s1 s2 r1 r2,
+  F64.is_finite (d_wo F64Ops d) = true -> F64.is_finite (d_scale_f d) = true ->
+  F64.lt F64.zero (d_scale_f d) = true -> F64.le s1 s2 = true ->
+  d_scale F64Ops d s1 = Ok r1 -> d_scale F64Ops d s2 = Ok r2 -> (r1 <= r2)%Z.
+Proof.
+  intros d s1 s2 r1 r2 Fw Fs Hlt Hle H1 H2. refine (scale_mono_F64 d s1 s2 r1 r2 Fw Fs _ Hle H1 H2).
+  exact (f64_lt_zero_R _ Fs Hlt).
+Qed.
+
+(* ... hence p-values are non-increasing in the score for the bit-exact model, under the computable
+   predicate [f64_mono_pred d] (table non-increasing in [0,1] and non-empty, min_score >= 0, w*offset
+   finite, scale finite and positive -- evaluated on a model instance in ex_mono_pred) *)
+Theorem C11_pvalue_monotone_binary64 : forall (d : dist F64.t) s1 s2 p1 p2,
+  f64_mono_pred d = true -> F64.le s1 s2 = true ->
+  d_pvalue F64Ops d s1 = Ok p1 -> d_pvalue F64Ops d s2 = Ok p2 ->
+  le_n F64Ops p2 p1 = true.
+Proof. exact pvalue_monotone_F64. Qed.
+
 (* ====================================================================== *)
 (* Tie of the hand-written model to the source text (regenerated on every   *)
 (* run by translate/dist_skel.py into GenDist.v)                            *)
@@ -523,3 +546,14 @@ Example ex_best :
   | _ => False
   end.
 Proof. vm_compute. conj_all; reflexivity. Qed.
+
+(* the predicate of C11_pvalue_monotone_binary64 holds on the example matrix (cells 0,1,2,3) and on
+   the witness of the known finding (cells in [4096, 4096.001]: the f32 unscale is inexact there, but
+   p-values are still monotone in the score) *)
+Example ex_mono_pred :
+  match f64_build (map (map f32_cell) [[0; 1065353216; 1073741824; 1077936128; ninf32]]%Z) (map f32_val bg_uniform32) with
+  | Ok d => f64_mono_pred d | _ => false end = true /\
+  match f64_build (map (map f32_cell) [[1166016512; 1166016512; 1166016513; 1166016514; ninf32];
+                                       [1166016512; 1166016513; 1166016513; 1166016514; ninf32]]%Z) (map f32_val bg_uniform32) with
+  | Ok d => f64_mono_pred d | _ => false end = true.
+Proof. split; vm_compute; reflexivity. Qed.
